@@ -160,16 +160,24 @@ def run(ctx):
     if q:
         legs = [(1, "MCPageTables1Quick", 0), (2, "MCPageTables2Quick", 0)]
     else:
-        legs = [(1, "MCPageTables1Quick", 0), (1, "MCPageTables1Full", 0), (2, "MCPageTables2Full", 0)]
+        legs = [(1, "MCPageTables1Quick", 0), (1, "MCPageTables1Full", 0), (1, "MCPageTables1Remap", 0), (2, "MCPageTables2Full", 0)]
+    import concurrent.futures
+    pool = concurrent.futures.ThreadPoolExecutor(max_workers=4 if q else 2)   # JVM start-up dominates the small legs: overlap them
+    mfuts = []
     for ib, cfg, _ in legs:
         raw = os.path.join(ctx.work, "c04_raw_%s.ndjson" % cfg)
-        ctx.model_check(d, "MCPageTables", cfg, env={"CASES": raw}, timeout=1500, workers=1 if q else 8)
+        if q:
+            mfuts.append(pool.submit(ctx.model_check, d, "MCPageTables", cfg, env={"CASES": raw}, timeout=1500, workers=4))
+        else:
+            ctx.model_check(d, "MCPageTables", cfg, env={"CASES": raw}, timeout=1500, workers=8)
         raws.append((ib, cfg, raw))
     bugs = ["NoClearNewTable", "NoRestoreRecursive"] if q else \
            ["NoClearNewTable", "NoRestoreRecursive", "StaleBitsOnRemap", "NoFlushOnUnmap", "NoFlushOnMap", "RegionCountUnrounded",
-            "UnmapHugeGuardHoisted", "LeafForcedPresent", "RestoreRebuildsEntry"]
-    for b in bugs:
-        ctx.expect_model_violation(d, "MCPageTables", "MCPageTablesBug_" + b, timeout=300, workers=4)
+            "UnmapHugeGuardHoisted", "LeafForcedPresent", "RestoreRebuildsEntry", "RemapKeepsFrame"]
+    bfuts = [pool.submit(ctx.expect_model_violation, d, "MCPageTables", "MCPageTablesBug_" + b, timeout=300, workers=2 if q else 4)
+             for b in bugs]
+    for f in mfuts:
+        f.result()
 
     cases = os.path.join(ctx.work, "c04_cases.ndjson")
     exhaustive = True
@@ -183,8 +191,19 @@ def run(ctx):
     vc.go(ctx, HARNESS, "TestVerifC04Cases", {"CASES": cases, "TRACE_OUT": trg}, timeout=900)
     trt = os.path.join(ctx.work, "c04_trace_t.ndjson")
     vc.go(ctx, HARNESS, "TestVerifC04Random", {"TRACE_OUT": trt, "NTRACES": 60 if q else 1500}, timeout=900)
-    vc.judge(ctx, "PageTablesTrace", "PageTablesTraceC04", [("G-transitions", trg), ("T-random", trt)],
-             to_replay, nontrivial, brief, timeout=1500, parallel=5 if q else None)
+    traces = [("G-transitions", trg), ("T-random", trt)]
+    if q:                   # one batch of monitor processes instead of two
+        both = os.path.join(ctx.work, "c04_trace_gt.ndjson")
+        with open(both, "w") as g:
+            for _, pth in traces:
+                with open(pth) as f:
+                    g.write(f.read())
+        traces = [("G-transitions+T-random", both)]
+    vc.judge(ctx, "PageTablesTrace", "PageTablesTraceC04", traces,
+             to_replay, nontrivial, brief, timeout=1500, parallel=8 if q else None)
+    for f in bfuts:
+        f.result()          # a Broken raised in an overlapped design-mutant leg surfaces here
+    pool.shutdown()
     ctx.cov["exhaustive"] = exhaustive and not ctx.violations
     ctx.cov["explanation"] = ("exhaustive = every transition TLC generated into the last level of the small-scope models "
                               "(2 and 4 entries per table) was replayed on the real code together with a path reaching it; "
